@@ -1584,6 +1584,122 @@ func runCallbackPark(rng *hx.Rng, r *hx.Run) result {
 	return res
 }
 
+// corpus: hand-written histories that run first.  Their verdicts are known; the Go checker must give them (else the harness
+// refuses to run: its oracle would be broken), and the Lean driver must answer the same, line by line - so the agreement of
+// the two checkers is exercised on REJECTED histories too on a tree where every recorded history is accepted.
+var corpus = []struct {
+	name   string
+	accept bool
+	lines  []string
+}{
+	{"sequential", true, []string{"h 1 2 set 0100 aa => ok", "h 3 4 get 0100 => val aa", "h 5 6 del 0100 => ok", "h 7 8 has 0100 => false"}},
+	{"stale-read", false, []string{"h 1 2 set 0100 aa => ok", "h 3 4 set 0100 bb => ok", "h 5 6 get 0100 => val aa"}},
+	{"read-before-write", false, []string{"h 1 2 get 0100 => val aa", "h 3 4 set 0100 aa => ok"}},
+	{"overlapping-read-either-way", true, []string{"h 1 4 set 0100 aa => ok", "h 2 3 get 0100 => notfound", "h 2 5 get 0100 => val aa"}},
+	// the unrepaired flushkv (b5d5462): a Set that answers ErrStoreClosed was read by a call that completed before Close was invoked
+	{"flushkv-prefix-closed-but-applied", false, []string{"hf 1 8 set 0100 aa => closed", "h 2 3 get 0100 => val aa", "h 4 5 close => ok"}},
+	// a call that straddles Close may still take effect: it is linearised before the Close
+	{"straddles-close", true, []string{"h 1 6 set 0100 aa => ok", "h 2 3 close => ok", "h 4 5 get 0100 => closed"}},
+	{"effect-after-close-returned", false, []string{"h 1 2 close => ok", "h 3 4 set 0100 aa => ok"}},
+	{"flag-after-close", false, []string{"h 1 2 close => ok", "h 3 4 flag => ok"}},
+	{"flag-closed-after-close", true, []string{"h 1 2 close => ok", "h 3 4 flag => closed", "h 5 6 close => ok"}},
+	// iteration: one instant.  Writers: del 0100 completes before set 0102 is invoked.
+	{"iterate-pre-snapshot", true, []string{"h 1 2 set 0100 aa => ok", "h 3 4 set 0101 bb => ok", "h 5 10 iter 01 0 fwd 0 => kvs 0100:aa 0101:bb",
+		"h 6 7 del 0100 => ok", "h 8 9 set 0102 cc => ok"}},
+	{"iterate-post-snapshot", true, []string{"h 1 2 set 0100 aa => ok", "h 3 4 set 0101 bb => ok", "h 5 10 iter 01 0 fwd 0 => kvs 0101:bb 0102:cc",
+		"h 6 7 del 0100 => ok", "h 8 9 set 0102 cc => ok"}},
+	{"iterate-torn", false, []string{"h 1 2 set 0100 aa => ok", "h 3 4 set 0101 bb => ok", "h 5 10 iter 01 0 fwd 0 => kvs 0100:aa 0101:bb 0102:cc",
+		"h 6 7 del 0100 => ok", "h 8 9 set 0102 cc => ok"}},
+	{"iterate-keys-stripped-backward-stop", true, []string{"h 1 2 set 01ff00 aa => ok", "h 3 4 set 01ff01 bb => ok", "h 5 6 set 0100 cc => ok",
+		"h 7 8 iterk 01 1 bwd 2 => keys ff01 ff00"}},
+	{"iterate-missed-stable-entry", false, []string{"h 1 2 set 0100 aa => ok", "h 3 4 set 0101 bb => ok", "h 5 8 iterk 01 0 fwd 0 => keys 0101 0102",
+		"h 6 7 set 0102 cc => ok"}},
+	// each write of a committed batch is atomic on its own: one may be visible while the other is not yet
+	{"batch-writes-individually", true, []string{"h 1 6 set 0100 aa => ok", "h 1 6 set 0101 bb => ok", "h 2 3 get 0100 => val aa", "h 4 5 get 0101 => notfound"}},
+	{"batch-write-lost", false, []string{"h 1 2 set 0100 aa => ok", "h 1 2 set 0101 bb => ok", "h 3 4 get 0101 => notfound"}},
+	{"delete-prefix-atomic", false, []string{"h 1 2 set 01ff00 aa => ok", "h 3 4 set 01ff01 bb => ok", "h 5 8 delp 01ff => ok",
+		"h 6 7 iterk 01 0 fwd 0 => keys 01ff01"}},
+	{"delete-prefix-then-has", false, []string{"h 1 2 set 01ff00 aa => ok", "h 3 4 delp 01 => ok", "h 5 6 has 01ff00 => true"}},
+}
+
+func runCorpus(r *hx.Run) {
+	for _, c := range corpus {
+		var ops []*hop
+		for _, l := range c.lines {
+			o, ok := parseLine(l)
+			if !ok {
+				panic("corpus " + c.name + ": bad line " + l)
+			}
+			ops = append(ops, o)
+		}
+		ops = sortedOps(ops)
+		ok, _, inconclusive := linearizable(ops, false)
+		if inconclusive || ok != c.accept {
+			fmt.Fprintf(os.Stderr, "C05 harness self-test: the Go checker decides the corpus history %q as accept=%v, expected %v\n", c.name, ok, c.accept)
+			os.Exit(2)
+		}
+		r.Case(0)
+		for _, o := range ops {
+			r.Line(o.line(), "ok")
+		}
+		if ok {
+			r.Line("end", "accept")
+		} else {
+			r.Line("end", "reject not-linearizable")
+		}
+		r.Count("corpus:" + map[bool]string{true: "accept", false: "reject"}[ok])
+	}
+}
+
+var shrunk int // rejected histories minimised so far in this run
+
+// shrinkReads removes read-only operations (Get / Has / Iterate / IterateKeys / flag calls, and data calls that answered
+// `closed` without the flushkv caveat) from a rejected history as long as what remains is still rejected by the Go checker.
+// Sound as a counterexample: a linearisation of the full history restricted to the kept operations is a linearisation of
+// the sub-history (the dropped ones never change the state), so a rejected sub-history means a rejected history.
+func shrinkReads(ops []*hop) []*hop {
+	removable := func(o *hop) bool {
+		switch o.kind {
+		case "get", "has", "iter", "iterk", "flag":
+			return true
+		case "close":
+			return false
+		}
+
+		return o.out == "closed" && !o.mayApply
+	}
+	cur := append([]*hop(nil), ops...)
+	tries := 0
+	for chunk := len(cur) / 2; chunk >= 1; chunk /= 2 {
+		for i := 0; i < len(cur) && tries < 400; {
+			// candidate: drop the removable operations among cur[i:i+chunk]
+			var cand []*hop
+			dropped := 0
+			for j, o := range cur {
+				if j >= i && j < i+chunk && removable(o) {
+					dropped++
+
+					continue
+				}
+				cand = append(cand, o)
+			}
+			if dropped == 0 {
+				i += chunk
+
+				continue
+			}
+			tries++
+			if ok, _, inconclusive := linearizable(cand, false); !ok && !inconclusive {
+				cur = cand // still rejected: keep the removal (the window now holds the next operations)
+			} else {
+				i += chunk
+			}
+		}
+	}
+
+	return cur
+}
+
 func emit(r *hx.Run, sub uint64, res result) {
 	ops := res.ops
 	sort.Slice(ops, func(i, j int) bool { return ops[i].inv < ops[j].inv })
@@ -1635,6 +1751,8 @@ func emit(r *hx.Run, sub uint64, res result) {
 		r.Extra["max_checker_nodes_per_history"] = nodes
 	}
 	verdict := "accept"
+	var minimised []*hop
+	var failLater func()
 	if !ok {
 		verdict = "reject not-linearizable"
 		// classify: does it become linearizable once the flushkv mutations that answered `closed` may have taken effect?
@@ -1649,7 +1767,19 @@ func emit(r *hx.Run, sub uint64, res result) {
 			}
 		}
 		r.Count("not-linearizable:" + cause)
-		detail := "history is not linearizable w.r.t. the ordered-map contract (" + res.desc + ", cause " + cause + "): " + strings.Join(lines, " ; ")
+		detail := "history is not linearizable w.r.t. the ordered-map contract (" + res.desc + ", cause " + cause + "): "
+		// minimised failing input (the first few rejected histories of a run): reads removed as long as the rest stays rejected
+		if shrunk < 6 && len(ops) <= 700 {
+			shrunk++
+			minimised = shrinkReads(ops)
+			ml := make([]string, len(minimised))
+			for i, o := range minimised {
+				ml[i] = o.line()
+			}
+			detail += fmt.Sprintf("minimised to %d of %d operations (read-only operations removed while the rest stays rejected; dropping a read from a linearizable history leaves it linearizable, so this sub-history is a counterexample on its own): ", len(minimised), len(ops)) +
+				strings.Join(ml, " ; ") + " ;; full history: "
+		}
+		detail += strings.Join(lines, " ; ")
 		if len(detail) > 6000 {
 			detail = detail[:6000] + " …"
 		}
@@ -1658,9 +1788,23 @@ func emit(r *hx.Run, sub uint64, res result) {
 			sig["api"] = "flushkv mutator (Set/Delete/DeletePrefix/Clear/batch Commit)"
 			sig["trigger"] = "Close between the wrapped store's mutation and the Flush() that flushkv issues after it"
 		}
-		r.Fail("linearizable", detail, sig)
+		if len(minimised) > 0 && len(minimised) < len(ops) {
+			failLater = func() { r.Fail("linearizable", detail, sig) } // reported with the minimised case: its lines are the replay
+		} else {
+			r.Fail("linearizable", detail, sig)
+		}
 	}
 	r.Line("end", verdict)
+	if failLater != nil {
+		// the minimised history as a case of its own: the Lean checker must reject it too
+		r.Case(sub)
+		for _, o := range minimised {
+			r.Line(o.line(), "ok")
+		}
+		failLater()
+		r.Line("end", "reject not-linearizable")
+		r.Count("minimised-history-emitted")
+	}
 	if overlaps >= 3 && crossReads >= 1 {
 		h := sha256.Sum256([]byte(strings.Join(lines, "\n")))
 		r.Nontrivial(string(h[:8]))
@@ -1716,6 +1860,7 @@ func main() {
 
 		return
 	}
+	runCorpus(r)
 	// crash probes first (child processes): a fatal runtime error in-process would take every recorded history with it
 	nProbes, rounds := 2, 1500
 	if r.Tier == "thorough" {
